@@ -218,7 +218,8 @@ func init() {
 				args = append(args, adam.Epsilon{Value: 1e-4})
 			}
 			f := func(x ConstVector) (MagicScalar, error) { return o.scalar(x) }
-			b.run = func() error { _, err := adam.Run(f, x0, args...); return err }
+			args = b.hold(args)
+			b.run = func() error { r, err := adam.Run(f, x0, args...); b.ret(r); return err }
 		}})
 
 	// ------------------------------------------------------------ 2 adam.RunGradient
@@ -253,7 +254,8 @@ func init() {
 				args = append(args, adam.Epsilon{Value: 1e-4})
 			}
 			f := adam.DenseGradientF(o.gradient)
-			b.run = func() error { _, err := adam.RunGradient(f, x0, args...); return err }
+			args = b.hold(args)
+			b.run = func() error { r, err := adam.RunGradient(f, x0, args...); b.ret(r); return err }
 		}})
 
 	// ------------------------------------------------------------ 4 bfgs.Run
@@ -291,7 +293,8 @@ func init() {
 				args = append(args, bfgs.Constraints{Value: func(x Vector) bool { return boxed(x) }})
 			}
 			f := bfgs.Objective(func(x ConstVector) (MagicScalar, error) { return o.scalar(x) })
-			b.run = func() error { _, err := bfgs.Run(f, x0, args...); return err }
+			args = b.hold(args)
+			b.run = func() error { r, err := bfgs.Run(f, x0, args...); b.ret(r); return err }
 		}})
 
 	// ------------------------------------------------------------ 5 blahut.Run
@@ -327,7 +330,8 @@ func init() {
 				args = append(args, blahut.Lambda{Value: 0.75})
 			}
 			steps := b.s.int1("steps", 1)
-			b.run = func() error { blahut.Run(ch, p, steps, args...); return nil }
+			args = b.hold(args)
+			b.run = func() error { r := blahut.Run(ch, p, steps, args...); b.ret(r); return nil }
 		}})
 
 	// ------------------------------------------------------------ 6 blahut.RunNaive
@@ -357,7 +361,8 @@ func init() {
 				args = append(args, blahut.Lambda{Value: 0.75})
 			}
 			steps := b.s.int1("steps", 1)
-			b.run = func() error { blahut.RunNaive(ch, p, steps, args...); return nil }
+			args = b.hold(args)
+			b.run = func() error { r := blahut.RunNaive(ch, p, steps, args...); b.ret(r); return nil }
 		}})
 
 	// ------------------------------------------------------------ 12 gradientDescent.Run
@@ -385,7 +390,8 @@ func init() {
 				args = append(args, gradientDescent.Epsilon{Value: 1e-3})
 			}
 			f := func(x ConstVector) (MagicScalar, error) { return o.scalar(x) }
-			b.run = func() error { _, err := gradientDescent.Run(f, x0, 0.0625, args...); return err }
+			args = b.hold(args)
+			b.run = func() error { r, err := gradientDescent.Run(f, x0, 0.0625, args...); b.ret(r); return err }
 		}})
 
 	// ------------------------------------------------------------ 18 lineSearch.Run
@@ -428,7 +434,8 @@ func init() {
 				return r, nil
 			}
 			t := scalarType(b.s.Kind)
-			b.run = func() error { _, err := lineSearch.Run(f, t, args...); return err }
+			args = b.hold(args)
+			b.run = func() error { r, err := lineSearch.Run(f, t, args...); b.ret(r); return err }
 		}})
 
 	// ------------------------------------------------------------ 22..24 newton.Run*
@@ -514,6 +521,7 @@ func init() {
 			x := b.startVec("x0")
 			args := newtonArgs(b, 0)
 			f := func(x ConstVector) (MagicVector, error) { return o.root(x) }
+			args = b.hold(args)
 			b.run = func() error { r, err := newton.RunRoot(f, x, args...); b.ret(r); return err }
 		}})
 	register(&entryDef{id: 23, name: "newton.RunCrit", modelled: true, masks: newtonMasks, optStr: newtonStr, gen: newtonGen,
@@ -522,6 +530,7 @@ func init() {
 			x := b.startVec("x0")
 			args := newtonArgs(b, 1)
 			f := func(x ConstVector) (MagicScalar, error) { return o.scalar(x) }
+			args = b.hold(args)
 			b.run = func() error { r, err := newton.RunCrit(f, x, args...); b.ret(r); return err }
 		}})
 	register(&entryDef{id: 24, name: "newton.RunMin", modelled: true, masks: newtonMasks, optStr: newtonStr, gen: newtonGen,
@@ -530,6 +539,7 @@ func init() {
 			x := b.startVec("x0")
 			args := newtonArgs(b, 2)
 			f := func(x ConstVector) (MagicScalar, error) { return o.scalar(x) }
+			args = b.hold(args)
 			b.run = func() error { r, err := newton.RunMin(f, x, args...); b.ret(r); return err }
 		}})
 
@@ -563,7 +573,8 @@ func init() {
 				args = append(args, rprop.Constraints{Value: func(x Vector) bool { return boxed(x) }})
 			}
 			f := func(x ConstVector) (MagicScalar, error) { return o.scalar(x) }
-			b.run = func() error { _, err := rprop.Run(f, x0, 0.125, eta, args...); return err }
+			args = b.hold(args)
+			b.run = func() error { r, err := rprop.Run(f, x0, 0.125, eta, args...); b.ret(r); return err }
 		}})
 
 	// ------------------------------------------------------------ 27 rprop.RunGradient
@@ -597,7 +608,8 @@ func init() {
 				args = append(args, rprop.ConstConstraints{Value: boxed})
 			}
 			f := rprop.DenseGradientF(o.gradient)
-			b.run = func() error { _, err := rprop.RunGradient(f, x0, 0.125, eta, args...); return err }
+			args = b.hold(args)
+			b.run = func() error { r, err := rprop.RunGradient(f, x0, 0.125, eta, args...); b.ret(r); return err }
 		}})
 
 	// ------------------------------------------------------------ 28 saga.Run
@@ -773,6 +785,7 @@ func init() {
 				}
 				args = append(args, is)
 			}
+			args = b.hold(args)
 			b.run = func() error { r, _, err := saga.Run(f, n, x, args...); b.ret(r); return err }
 		}})
 }
